@@ -1,0 +1,159 @@
+//! Verification hooks (feature `verif-hooks`, off by default).
+//!
+//! A deterministic simulator can install a thread-local observer, which is told about every event
+//! the broker dequeues (in dequeue order) and is handed a read-only plain-data snapshot of the
+//! broker's state after every processed event. Without an installed observer, behavior is unchanged.
+#![allow(missing_docs)]
+
+use aldrin_core::message::Message;
+use aldrin_core::{
+    BusListenerCookie, BusListenerFilter, BusListenerScope, ChannelCookie, ObjectCookie, ObjectId,
+    ObjectUuid, ProtocolVersion, ServiceCookie, ServiceInfo, ServiceUuid,
+};
+use std::cell::RefCell;
+use std::collections::{BTreeMap, BTreeSet};
+
+/// An event dequeued by the broker.
+#[derive(Debug, Clone)]
+pub enum TapInput {
+    NewConnection {
+        conn: usize,
+        version: ProtocolVersion,
+    },
+    ConnectionShutdown {
+        conn: usize,
+    },
+    Message {
+        conn: usize,
+        msg: Message,
+    },
+    ShutdownBroker,
+    ShutdownIdleBroker,
+    ShutdownConnection {
+        conn: usize,
+    },
+    TakeStatistics,
+}
+
+#[derive(Debug, Clone)]
+pub enum TapEvent {
+    /// The broker dequeued this event and is about to process it.
+    Input(TapInput),
+
+    /// The broker finished processing the last input (including all deferred work).
+    Step(Box<BrokerSnapshot>),
+
+    /// `Broker::run` left its main loop.
+    Exit(Box<BrokerSnapshot>),
+}
+
+#[derive(Debug, Clone, Default, PartialEq, Eq)]
+pub struct ConnSnapshot {
+    pub version: Option<ProtocolVersion>,
+    pub objects: BTreeSet<ObjectCookie>,
+    pub events: BTreeMap<ServiceCookie, BTreeSet<u32>>,
+    pub all_events: BTreeSet<ServiceCookie>,
+    pub subscriptions: BTreeSet<ServiceCookie>,
+    pub senders: BTreeSet<ChannelCookie>,
+    pub receivers: BTreeSet<ChannelCookie>,
+    pub bus_listeners: BTreeSet<BusListenerCookie>,
+
+    /// Caller serial -> (callee serial, callee connection).
+    pub calls: BTreeMap<u32, (u32, usize)>,
+}
+
+#[derive(Debug, Clone, PartialEq, Eq)]
+pub struct ObjectSnapshot {
+    pub conn: usize,
+    pub cookie: ObjectCookie,
+    pub services: BTreeSet<ServiceCookie>,
+}
+
+#[derive(Debug, Clone, PartialEq, Eq)]
+pub struct ServiceSnapshot {
+    pub cookie: ServiceCookie,
+    pub object_cookie: ObjectCookie,
+    pub function_calls: BTreeSet<u32>,
+    pub events: BTreeMap<u32, BTreeSet<usize>>,
+    pub all_events: BTreeSet<usize>,
+    pub subscriptions: BTreeSet<usize>,
+}
+
+#[derive(Debug, Clone, PartialEq, Eq)]
+pub struct FunctionCallSnapshot {
+    pub caller_serial: u32,
+    pub caller_conn: usize,
+    pub callee_obj: ObjectUuid,
+    pub callee_svc: ServiceUuid,
+    pub aborted: bool,
+}
+
+#[derive(Debug, Copy, Clone, PartialEq, Eq)]
+pub enum ChannelEndSnapshot {
+    Unclaimed,
+    Claimed { owner: usize, capacity: u32 },
+    Closed,
+}
+
+#[derive(Debug, Clone, PartialEq, Eq)]
+pub struct ChannelSnapshot {
+    pub sender: ChannelEndSnapshot,
+    pub receiver: ChannelEndSnapshot,
+}
+
+#[derive(Debug, Clone, PartialEq, Eq)]
+pub struct BusListenerSnapshot {
+    pub conn: usize,
+    pub filters: BTreeSet<BusListenerFilter>,
+    pub scope: Option<BusListenerScope>,
+    pub matches_all_objects: bool,
+    pub matches_specific_services: bool,
+}
+
+#[derive(Debug, Clone, Default, PartialEq, Eq)]
+pub struct GaugesSnapshot {
+    pub num_connections: usize,
+    pub num_objects: usize,
+    pub num_services: usize,
+    pub num_channels: usize,
+    pub num_bus_listeners: usize,
+}
+
+#[derive(Debug, Clone, Default)]
+pub struct BrokerSnapshot {
+    pub conns: BTreeMap<usize, ConnSnapshot>,
+    pub obj_uuids: BTreeMap<ObjectCookie, ObjectUuid>,
+    pub objs: BTreeMap<ObjectUuid, ObjectSnapshot>,
+    pub svc_uuids: BTreeMap<ServiceCookie, (ObjectId, ServiceUuid, ServiceInfo)>,
+    pub svcs: BTreeMap<(ObjectUuid, ServiceUuid), ServiceSnapshot>,
+    pub function_calls: BTreeMap<u32, FunctionCallSnapshot>,
+    pub channels: BTreeMap<ChannelCookie, ChannelSnapshot>,
+    pub bus_listeners: BTreeMap<BusListenerCookie, BusListenerSnapshot>,
+    pub gauges: Option<GaugesSnapshot>,
+    pub has_work_left: bool,
+    pub shutdown_now: bool,
+    pub shutdown_idle: bool,
+}
+
+type Observer = Box<dyn FnMut(TapEvent)>;
+
+thread_local! {
+    static OBSERVER: RefCell<Option<Observer>> = const { RefCell::new(None) };
+}
+
+/// Installs (or removes) the observer of the current thread.
+pub fn install_observer(observer: Option<Observer>) {
+    OBSERVER.with(|o| *o.borrow_mut() = observer);
+}
+
+pub(crate) fn is_observed() -> bool {
+    OBSERVER.with(|o| o.borrow().is_some())
+}
+
+pub(crate) fn observe(event: TapEvent) {
+    OBSERVER.with(|o| {
+        if let Some(observer) = o.borrow_mut().as_mut() {
+            observer(event);
+        }
+    });
+}
